@@ -55,7 +55,8 @@ def div (a b : Dec) : Dec := divRound a b 16
 def truncate (d : Dec) (prec : Int) : Dec :=
   if prec ≥ 0 && -prec > d.exp then d.rescale (-prec) else d
 
-def mod (a b : Dec) : Dec := a.sub (b.mul ((a.div b).truncate 0))
+/-- funcs.go func_Modulo: the remainder of `QuoRem(b, 0)` (exact; `Decimal.Mod`, which rounds the quotient first, is no longer used) -/
+def mod (a b : Dec) : Dec := (quoRem a b 0).2
 
 def isInteger (d : Dec) : Bool :=
   if d.exp ≥ 0 then true else Int.tmod d.coef (10 ^ (-d.exp).toNat) == 0
